@@ -858,6 +858,10 @@ def scenarios(ctx_pid, quick):
                   ['c2', 'c1', 'c1'], ['c2', 'c2', 'c1']):
         for x in range(len(combo)):
             add('cancel', 'L1x2', combo, cancel=[x])
+    # cancel of a task which waits for its named environment, not resources
+    for combo in (['env'], ['env', 'c1'], ['c2', 'env']):
+        x = combo.index('env')
+        add('cancel', 'L1x2', combo, cancel=[x], envs=['ve1'])
     if not quick:
         add('cancel', 'L1x2', ['c2', 'c2', 'c2'], cancel=[1, 2])
 
